@@ -77,6 +77,10 @@ def gen_scene(rng, *, single=False, max_frames=4, max_animals=3, allow_empty_ins
         # a frame must keep at least one non-empty user instance to be realistic for user_instances_only
         if all(i["pred"] for i in insts):
             insts[0]["pred"] = False
+        for i in insts:
+            # as in real .slp files: a node toggled "not visible" keeps the coordinates it was placed at
+            if rng.random() < 0.3 and any(p[0] != p[0] for p in i["pts"]) and any(p[0] == p[0] for p in i["pts"]):
+                i["hidden"] = {str(j): [round(rng.uniform(2, W - 3), 2), round(rng.uniform(2, H - 3), 2)] for j, p in enumerate(i["pts"]) if p[0] != p[0]}
         frames.append({"video": v, "frame_idx": fi, "instances": insts})
     return {"n_nodes": n_nodes, "edges": edges, "sizes": sizes, "frames": frames, "n_video_frames": 12}
 
@@ -90,7 +94,13 @@ def build_labels(scene, dtype=np.uint8, on_read=None):
     spec = []
     for fr in scene["frames"]:
         spec.append((fr["video"], fr["frame_idx"], [(np.array(i["pts"], dtype="float64"), i["pred"]) for i in fr["instances"]]))
-    return media.make_labels(vids, sk, spec)
+    labels = media.make_labels(vids, sk, spec)
+    for lf, fr in zip(labels.labeled_frames, scene["frames"]):
+        for inst, i in zip(lf.instances, fr["instances"]):
+            for j, xy in (i.get("hidden") or {}).items():
+                inst.points["xy"][int(j)] = xy  # invisible node with stored coordinates: inst.numpy() still says NaN
+                inst.points["visible"][int(j)] = False
+    return labels
 
 
 def data_config(is_rgb=True, user_instances_only=True, aug=None):
@@ -157,15 +167,17 @@ def snapshot_labels(labels):
     snap = []
     for lf in labels.labeled_frames:
         for inst in list(lf.instances):
-            snap.append((inst, np.array(inst.numpy(), copy=True)))
+            snap.append((inst, np.array(inst.numpy(), copy=True), np.array(inst.points["xy"], copy=True), np.array(inst.points["visible"], copy=True)))
     return snap
 
 
 def labels_changed(snap):
-    for inst, arr in snap:
+    for inst, arr, raw, vis in snap:
         now = inst.numpy()
         if now.shape != arr.shape or not np.array_equal(now, arr, equal_nan=True):
             return f"instance points changed from {arr.tolist()} to {now.tolist()}"
+        if not np.array_equal(inst.points["xy"], raw, equal_nan=True) or not np.array_equal(inst.points["visible"], vis):
+            return f"stored coordinates / visibility changed from {raw.tolist()} {vis.tolist()} to {inst.points['xy'].tolist()} {inst.points['visible'].tolist()}"
     return None
 
 
